@@ -60,6 +60,10 @@ def build(U):
     U.trust('precondition (shape of the states migrate_slots hands over): source chunks with both halves owning slots come first, followed by the freshly added empty chunks; at most 8192 chunks; every source range list has start <= end ranges and at most 16384 slots',
             'RangeList::new through its contract proved in unit range_list; Vec::drain(..).collect() = take all (D6); std::cmp::min (R6); D3, D4')
 
+# the outer-loop query carries three families of quantified facts per half (frame, conservation, fair share): 8-10 s of solver time,
+# above the default budget of the quick tier; stable over seeds at this budget (checked with 5 seeds)
+RLIMIT = 80
+
 MUST_FAIL = '''
 proof fn must_fail_remove_slots_prefix_trivial(cs: Seq<ChunkStore>) requires cs.len() > 0 ensures src_prefix(cs, 0) { }
 '''
